@@ -893,9 +893,12 @@ def retis_swap_zero(
     logger.info("Initial point is: %s", shpt_copy.order)
     # Propagate it backward in time:
     path_tmp = path_old1.empty_path(maxlen=maxlen1 - 1)
+    success0 = False
     if allowed:
         logger.info("Propagating for [0^-]")
-        engine0.propagate(path_tmp, ens_set0, shpt_copy, reverse=True)
+        success0, _ = engine0.propagate(
+            path_tmp, ens_set0, shpt_copy, reverse=True
+        )
     else:
         logger.info("Not propagating for [0^-]")
         path_tmp.append(shpt_copy)
@@ -912,7 +915,7 @@ def retis_swap_zero(
     logger.info("Point is %s", phase_point.order)
     engine1.dump_phasepoint(phase_point, "second")
     path0.append(phase_point)
-    if path0.length == maxlen0:
+    if path0.length > maxlen0 or (path0.length == maxlen0 and not success0):
         path0.status = "BTX"
     elif path0.length < 3:
         path0.status = "BTS"
@@ -937,11 +940,14 @@ def retis_swap_zero(
     # method will not alter the initial state.
     # system = path_ensemble0.last_path.phasepoints[-1].copy()
     system = path_old0.phasepoints[-1].copy()
+    success1 = False
     if allowed:
         logger.info("Initial point is %s", system.order)
         # nsembles[1]['system'] = system
         logger.info("Propagating for [0^+]")
-        engine1.propagate(path_tmp, ens_set1, system, reverse=False)
+        success1, _ = engine1.propagate(
+            path_tmp, ens_set1, system, reverse=False
+        )
         # Ok, now we need to just add the SECOND LAST point from [0^-] as
         # the first point for the path:
         path1 = path_tmp.empty_path(maxlen=maxlen1)
@@ -965,7 +971,7 @@ def retis_swap_zero(
     ##### NB     path1.set_move('s-')
     ##### NB else:
     ##### NB     path1.set_move('ld')
-    if path1.length >= maxlen1:
+    if path1.length > maxlen1 or (path1.length == maxlen1 and not success1):
         path1.status = "FTX"
     elif path1.length < 3:
         path1.status = "FTS"
